@@ -506,7 +506,7 @@ func judgeSequential(w *proxyWorld, res *Result) {
 		}
 		// C06.a: a conditional request carries exactly the stored validators
 		if st.stored != nil {
-			se, sl := st.stored.RespHdr.Get("ETag"), st.stored.RespHdr.Get("Last-Modified")
+			se, sl := st.stored.RespHdr.Get("ETag"), dateValidator(st.stored.RespHdr)
 			if first.Cond && st.altValidators(first) {
 				// validators of another candidate: fine
 			} else if first.Cond && !first.Marker {
@@ -518,6 +518,11 @@ func judgeSequential(w *proxyWorld, res *Result) {
 				}
 				if ims := first.Hdr.Get("If-Modified-Since"); sl != "" && ims != sl {
 					res.violate("C06.a", "wrong-lastmod-validator", "revalidation of %s sent If-Modified-Since %q, stored response #%d has Last-Modified %q [%s]", desc, ims, st.stored.N, sl, pd)
+				} else if sl == "" && ims != "" {
+					// a date the origin never issued (the proxy's own clock at the time of the store): an
+					// origin that compares it with its modification time answers 304 for a change made
+					// while its clock is behind the proxy's
+					res.violate("C06.a", "invented-lastmod-validator", "revalidation of %s sent If-Modified-Since %q, stored response #%d has no Last-Modified [%s]", desc, ims, st.stored.N, pd)
 				}
 			} else if !first.Cond && st.present && inert && st.storable == storeMust && st.freshKnown && ex.SendT.After(st.freshHi) && (se != "" || sl != "") {
 				res.violate("C06.a", "stale-entry-not-revalidated", "%s found response #%d stale (validators ETag %q Last-Modified %q) but the origin was asked unconditionally [%s]", desc, st.stored.N, se, sl, pd)
@@ -601,7 +606,7 @@ func (st *seqState) altValidators(req *OLog) bool {
 		if a == nil {
 			continue
 		}
-		if req.Hdr.Get("If-None-Match") == a.RespHdr.Get("ETag") && (a.RespHdr.Get("Last-Modified") == "" || req.Hdr.Get("If-Modified-Since") == a.RespHdr.Get("Last-Modified")) {
+		if req.Hdr.Get("If-None-Match") == a.RespHdr.Get("ETag") && (dateValidator(a.RespHdr) == "" || req.Hdr.Get("If-Modified-Since") == dateValidator(a.RespHdr)) {
 			return true
 		}
 	}
@@ -990,4 +995,14 @@ func troubleContext(w *proxyWorld, p *ProxyPlan, disconnects, evicts int) string
 		c = append(c, "disk-write-fails")
 	}
 	return strings.Join(c, ",")
+}
+
+// dateValidator: the Last-Modified of a response as far as it is a validator. A value that is no
+// HTTP date (in any of the three forms) validates nothing and is not sent back.
+func dateValidator(h http.Header) string {
+	lm := h.Get("Last-Modified")
+	if _, err := http.ParseTime(lm); err != nil {
+		return ""
+	}
+	return lm
 }
